@@ -163,7 +163,12 @@ Viol(a, o, act, aNext, o2) ==
   \* "... until it is reported confirmed, and in no rebroadcast started after that"
   \cup (IF newR /\ a2.judged /\ t \in a2.forbC THEN {"NotAfterConfirmed"} ELSE {})
   \* "parents before their children"
+  \* (a child sent after ... its parent: either the parent comes after one of
+  \*  its children, or a child comes while a parent that this rebroadcast has
+  \*  to contain has not been sent yet)
   \cup (IF newR /\ \E c \in seenB : t \in Parents(o2, c) THEN {"ParentsFirst"} ELSE {})
+  \cup (IF newR /\ a2.judged /\ \E q \in Parents(o2, t) : q \in a2.need /\ q \notin seenB
+        THEN {"ParentsFirst"} ELSE {})
   \* the rebroadcast that started while tx was accepted-and-unconfirmed contains tx
   \cup (IF ended /\ a2.judged /\ ~a2.stopped /\ ~(a2.need \subseteq a2.seen)
         THEN {"RebroadcastComplete"} ELSE {})
